@@ -56,6 +56,8 @@ def canon_val(v):
         f = float(v)
         if not math.isfinite(f) or f != math.floor(f) or abs(f) >= 2 ** 53:
             raise Unsupported("non-integer float %r" % (v,))
+        if f == 0 and math.copysign(1.0, f) < 0:
+            raise Unsupported("negative zero (no counterpart in the integer model)")
         return int(f)
     if isinstance(v, (int, np.integer)):
         raise Unsupported("python int in context")
@@ -64,6 +66,8 @@ def canon_val(v):
             raise Unsupported("non-ascii")
         if "np.float64(" in v:
             raise Unsupported("numpy scalar repr rendered into a string")
+        if "-0.0" in v:
+            raise Unsupported("negative zero rendered into a string")
         return v
     if isinstance(v, (list, tuple)):
         return [canon_val(x) for x in v]
